@@ -35,6 +35,30 @@ HaveBase(lp) == lp.some /\ ~IsZero(lp.v)          \* write/unit.rs: low_pc prese
 UnitBase(lp) == IF lp.some THEN lp.v ELSE Z8       \* read side: Unit::low_pc defaults to 0
 
 (*------------------------------------------------------------------------*)
+(* Location expressions with entry references.  A writer entry may carry a *)
+(* field r = [op, tgt]: after the raw bytes d the expression ends with     *)
+(* DW_OP_call4 <unit offset of the target DIE> (Expression::op_call) or    *)
+(* DW_OP_call_ref <.debug_info offset> (op_call_ref); tgt = 0 is the root  *)
+(* DIE, tgt = i the i-th child.  Location lists are written after the DIE  *)
+(* offsets are known, so forward references are legal there.  Expand       *)
+(* replaces the reference by its bytes, given the DIE offsets offs         *)
+(* (offs[i + 1] = offset of DIE i; the unit is at .debug_info offset 0).   *)
+(* ModelOffs = the layout of the unit gvh-listw builds: header, root DIE   *)
+(* (abbreviation code, optional DW_AT_low_pc as DW_FORM_addr, children),   *)
+(* one child per list (code + one section offset).                         *)
+HasRef(e) == "r" \in DOMAIN e
+WordSize(enc) == IF enc.fmt = 64 THEN 8 ELSE 4
+UnitHeaderSize(enc) == (IF enc.fmt = 64 THEN 12 ELSE 4) + 2 + (IF enc.ver >= 5 THEN 2 ELSE 1) + WordSize(enc)
+ModelOffs(enc, lp, n) ==
+    [j \in 1..(n + 1) |-> IF j = 1 THEN UnitHeaderSize(enc)
+                          ELSE UnitHeaderSize(enc) + 1 + (IF lp.some THEN enc.asz ELSE 0) + (j - 2) * (1 + WordSize(enc))]
+RefBytes(r, enc, offs) ==
+    IF r.op = "call4" THEN <<153>> \o Fld(N8(offs[r.tgt + 1]), 4, enc.le)
+    ELSE <<154>> \o Fld(N8(offs[r.tgt + 1]), WordSize(enc), enc.le)
+Expand(L, enc, offs) ==
+    [i \in DOMAIN L |-> IF HasRef(L[i]) THEN Ent(L[i].k, L[i].a, L[i].b, L[i].d \o RefBytes(L[i].r, enc, offs)) ELSE L[i]]
+
+(*------------------------------------------------------------------------*)
 (* Tables.                                                                 *)
 IndexOf(tab, x) == LET S == {i \in DOMAIN tab : tab[i] = x} IN
                    IF S = {} THEN 0 ELSE CHOOSE i \in S : TRUE
